@@ -7,7 +7,7 @@ from sqlparse import sql, tokens as T
 RULE = ('queries built from known parts: WHERE condition x every closing clause (GROUP BY, ORDER BY, LIMIT, UNION, EXCEPT, HAVING, RETURNING, INTO, none, end of parenthesis) x nesting in subqueries; '
         'select/FROM lists of written items; calls f(args); CASE with written WHEN/THEN/ELSE parts; comparisons with written operands; typed literals; non-trivial = distinct query text')
 ASSUMPTIONS = ['the passes before each accessor deliver the children the accessor theorems assume: checked here on the real code and by S-TREE/S-ACC']
-PARTIAL = ['where_extent over the grouping model is planned, sampled here', 'single-argument calls whose argument is an expression/placeholder/*/NULL and select lists with literal-aliased or parenthesised first items are known findings (KF-C13-1, KF-C13-2)']
+PARTIAL = ['Where extent is a theorem over the grouping model; that lists/calls/CASE/comparisons are grouped as the accessor theorems assume is sampled here', 'single-argument calls whose argument is an expression/placeholder/*/NULL and select lists with literal-aliased or parenthesised first items are known findings (KF-C13-1, KF-C13-2)']
 WS = [' ', '  ', '\n', '\t']
 NAMES = ['a', 'b1', 'col_x', 't.c', '"Q x"', 'sch.tbl.c']
 LITS = ['1', '42', "'s'", "'a,b'", '1.5']
